@@ -169,6 +169,14 @@ func (ft *funcTrans) readLoc(st *State, l *Loc) Term {
 		if ps.IsIdx {
 			cur = fmt.Sprintf("(select %s %s)", cur, ps.Idx)
 		} else {
+			// data-structure invariants of dependencies (spec "; invariant S_x ...") hold for the struct read through
+			for _, inv := range w.P.Spec.StructInv[ps.In.Name] {
+				f := strings.ReplaceAll(inv, "$v", cur)
+				if g, ok := ft.reach[ft.cur]; ok && g != "true" && g != "" {
+					f = fmt.Sprintf("(=> %s %s)", g, f)
+				}
+				w.addFact(f)
+			}
 			cur = fmt.Sprintf("(%s %s)", q(w.fieldsOf(ps.In)[ps.Field].Acc), cur)
 		}
 	}
@@ -286,6 +294,14 @@ func (ft *funcTrans) instr(in ssa.Instruction) {
 			}
 		default:
 			old := w.heapSym(st, l.Heap)
+			if at, ok := elem.Underlying().(*types.Array); ok && at.Len() == 1 {
+				// the one-element array of a varargs call such as append(s, x): remember the element
+				// heap as it was before the temporary array existed (see appendOp)
+				if ft.varargBefore == nil {
+					ft.varargBefore = map[ssa.Value]string{}
+				}
+				ft.varargBefore[x] = old
+			}
 			nw := ft.newHeapVersion(st, l.Heap)
 			w.addFact(fmt.Sprintf("(= %s (store %s %s %s))", nw, old, r, w.zero(s).S))
 		}
